@@ -242,7 +242,15 @@ def run_check(pid, tier, replay=None):
 
     # 3. correspondence + oracle on the implementation ----------------------------------------
     ctx = Ctx(pid, tier, seed, model_available, bool(relevant))
-    prop.run(ctx)
+    try:
+        prop.run(ctx)
+    except Exception:  # noqa
+        # an implementation that disagrees with itself answers with a marker line instead of a value; a property's
+        # own oracle may not be able to read that.  The disagreement is already recorded as a failing input.
+        if not any((f.get('signature') or {}).get('kind') == 'family' for f in ctx.failures):
+            raise
+        import traceback
+        ctx.notes.append('the oracle stopped at a marker line: ' + traceback.format_exc().strip().splitlines()[-1])
     for d in ctx.disagreements[:50]:
         broken.append({'kind': 'correspondence', 'name': 'model.%s vs pyais' % d['command'], 'detail': d})
 
